@@ -1036,19 +1036,28 @@ fn dns_timeout_in_force(run: &mut Run) {
     args.dns_resolve_method = Some(DnsResolveMethodConfig::Resolv);
     args.dns_timeout = Some(Duration::from_millis(150));
     if let Ok(Ok(cfg)) = guarded(|| verif_build_config(args, Sections::new().into_file(true), &privilege(), PID)) {
-        let started = guarded(|| trippy_dns::DnsResolver::start(trippy_dns::Config::new(cfg.dns_resolve_method, cfg.addr_family, cfg.dns_timeout, cfg.dns_ttl)));
-        if let Ok(Ok(resolver)) = started {
+        // (the resolver is started and asked on a thread of its own: if the time-out is not in force the look-up blocks
+        // for the system configuration's 5 s per attempt, or for the cache lifetime, and is not waited for)
+        let (method, family, timeout, ttl) = (cfg.dns_resolve_method, cfg.addr_family, cfg.dns_timeout, cfg.dns_ttl);
+        let (tx, rx) = std::sync::mpsc::channel();
+        let t0 = std::time::Instant::now();
+        std::thread::spawn(move || {
             use trippy_dns::Resolver as _;
-            let t0 = std::time::Instant::now();
-            let entry = resolver.reverse_lookup(IpAddr::V4(Ipv4Addr::new(10, 11, 12, 13)));
-            let took = t0.elapsed();
-            run.count("dns:timeout-checked");
-            if took > Duration::from_secs(4) {
+            // exactly the call of `app::start_dns_resolver`
+            let out = match trippy_dns::DnsResolver::start(trippy_dns::Config::new(method, family, timeout, ttl)) {
+                Ok(resolver) => format!("{:?}", resolver.reverse_lookup(IpAddr::V4(Ipv4Addr::new(10, 11, 12, 13)))),
+                Err(e) => format!("resolver not started: {e}"),
+            };
+            let _ = tx.send(out);
+        });
+        match rx.recv_timeout(Duration::from_secs(4)) {
+            Ok(out) if out.starts_with("resolver not started") => run.count("dns:resolver-unavailable"),
+            Ok(_) => run.count("dns:timeout-checked"),
+            Err(_) => {
+                run.count("dns:timeout-checked");
                 run.fail("c16-dns-timeout-not-in-force", format!(
-                    "--dns-resolve-method resolv --dns-timeout 150ms, a name server that does not answer: the reverse look-up was given up after {took:?} (as {entry:?})"));
+                    "--dns-resolve-method resolv --dns-timeout 150ms, a name server that does not answer: the reverse look-up is still waiting after {:?}", t0.elapsed()));
             }
-        } else {
-            run.count("dns:resolver-unavailable");
         }
     }
     stop.store(true, std::sync::atomic::Ordering::SeqCst);
@@ -1356,7 +1365,16 @@ fn item_tables(run: &mut Run) {
                 }
             }
             match guarded(|| verif_build_config(args, cf, &privilege(), PID)) {
-                Ok(Ok(cfg)) => Some(debug_fields(&if section == "theme-colors" { dbg(&cfg.tui_theme) } else { dbg(&cfg.tui_bindings) })),
+                Ok(Ok(cfg)) => {
+                    let mut fields = debug_fields(&if section == "theme-colors" { dbg(&cfg.tui_theme) } else { dbg(&cfg.tui_bindings) });
+                    // … and what the user interface is handed (`make_tui_config`: `Theme::from(TuiTheme)`,
+                    // `Bindings::from(TuiBindings)`), field by field under the name `ui.<field>`
+                    if let Ok(tc) = guarded(|| trippy_tui::verif::verif_make_tui_config(&cfg, "en".to_string())) {
+                        let ui = debug_fields(&if section == "theme-colors" { dbg(&tc.theme) } else { dbg(&tc.bindings) });
+                        fields.extend(ui.into_iter().map(|(k, v)| (format!("ui.{k}"), v)));
+                    }
+                    Some(fields)
+                }
                 _ => None,
             }
         };
@@ -1424,9 +1442,22 @@ fn item_tables(run: &mut Run) {
                         }
                     }
                 }
+                // the user interface is handed the same option under the same name: its field changes exactly when the
+                // option is given, and two ways of giving one value agree
+                let uif = format!("ui.{f}");
+                if let (Some(ub), Some(ug)) = (lookup(&base, &uif), lookup(&got, &uif)) {
+                    if want.is_some() && ug == ub {
+                        run.fail("c16-item-precedence", format!("[{section}] {k} given ({what}): the user interface's {f} is still the default {ub}"));
+                    }
+                    if what == "default" && ug != ub {
+                        run.fail("c16-item-precedence", format!("[{section}] {k} not given: the user interface's {f} is {ug}, was {ub}"));
+                    }
+                } else {
+                    run.count(&format!("items:{section}:ui-field-not-found"));
+                }
                 // independence: every other item keeps its default
                 for (of, ov) in &got {
-                    if *of != f && lookup(&base, of).as_ref() != Some(ov) {
+                    if *of != f && *of != uif && lookup(&base, of).as_ref() != Some(ov) {
                         run.fail("c16-item-independence", format!("[{section}] {k} given ({what}): item field {of} changed from {:?} to {ov}", lookup(&base, of)));
                     }
                 }
